@@ -6,10 +6,18 @@ ROOT = os.path.dirname(os.path.abspath(__file__))
 
 # id -> (category, technique, level text, level note)
 CHECKS = {
+    "C01": ("exploration",
+            "reference-model runtime monitor: generated programs run by the real engine (Script.Add/Compile/RunContext/GetAll) and by an independent tree-walking reference interpreter executed next to it; outcome (globals, error kind) compared per program; VM probe records opcode coverage",
+            "Each generated program (whole grammar, all builtins, host inputs of every runtime type, plus directed compositions) is executed by the real compiler+VM and by the reference interpreter under 4 map-order/append-capacity policies; final globals are compared structurally and errors by message. Programs whose outcome depends on an open choice are discarded and counted. Held on the programs listed in evidence; the model is an oracle, not a proof.",
+            "Trusted: the parser (AST shared by both sides), harness/ref (the model; characterised rules in harness/ref/CHARACTERISED.md). Limits 64 KiB for strings/bytes on both sides; budget-exceeding runs are inconclusive."),
     "C17": ("exploration",
             "differential runtime monitor: fmt.Sprintf as executable oracle over generated directives, 3 entry points, small-MaxStringLen family, totality under recover",
             "Every generated format call is executed by the real formatter (tengo.Format, builtin format, fmt.sprintf in a compiled script) and its text is compared byte-for-byte with fmt.Sprintf on the corresponding Go values; arbitrary format bytes and all object kinds are run under recover for totality; a family runs with MaxStringLen in {16,64,300} and requires text equality or ErrStringLimit exactly when Go's text exceeds the limit. Held on the executions listed in evidence, nothing is proved.",
             "Trusted: Go's fmt of the local toolchain; the three exclusions named in the property; %T compared with Tengo type names."),
+    "C20": ("exploration",
+            "runtime monitors on the real parser/compiler: independent minimal-parenthesis printer + shape comparison, independent semicolon-insertion rule vs explicit-semicolon twin, go/scanner+go/constant literal oracle, printed-form round trip through parser+compiler",
+            "Random expression trees are printed with minimal parentheses from an independent precedence table and the real parser's AST shape is compared; token sequences are re-laid-out with newlines/comments in every gap and compared with the explicit-semicolon form predicted by an independent token rule (or both must be rejected); literal spellings are judged against go/scanner+go/constant; generated programs are printed with File.String(), re-parsed and re-compiled and their instructions/constants compared. Held on the inputs listed in evidence.",
+            "Trusted: go/scanner, go/constant; the documented precedence table; the semicolon token rule as stated in DESIGN.md."),
     "C18": ("exploration",
             "differential runtime monitor: encoding/json (Valid, Decoder.UseNumber) as executable oracle over generated values, generated/mutated/raw decoder inputs; Go API and script level; panics caught under recover",
             "Each generated value is encoded by the real encoder; the bytes must be json.Valid, must be read by encoding/json as the same datum, and must decode back (real decoder) to an equal value with ints preserved exactly. Each decoder input (valid texts in random spellings, byte mutations, raw bytes) is decoded by the real decoder and must fail exactly when json.Valid is false, never panic, and yield the reference datum with int/float typing by literal form. Held on the executions listed in evidence.",
